@@ -198,23 +198,31 @@ def case_term(c, ans):
                                              nvterm(c["pred"]), expterm(ans["r"]))
 
 
-def model_compare(cases, answers, shard=1200):
-    """returns list of indices on which model and implementation disagree, or raises on Coq failure"""
+def _shard(args):
+    lo, part = args
+    v = PRELUDE + "Definition cases : list case := [\n%s].\n" % ";\n".join(case_term(c, a) for c, a in part)
+    v += 'Eval vm_compute in ("C09BAD", failing ok cases).\n'
+    rc, out = esrv.coq_run(v, timeout=900)
+    flat = " ".join(out.split()).replace("%string", "")
+    if rc != 0 or '("C09BAD",' not in flat:
+        raise RuntimeError("coq evaluation failed: " + out[-1500:])
+    body = flat.split('("C09BAD",', 1)[1]
+    body = body[:body.index(")")].strip()
+    if body == "[]":
+        return []
+    return [lo + int(t) for t in body.strip("[]").replace("%nat", "").split(";") if t.strip()]
+
+
+def model_compare(cases, answers, shard=600):
+    """indices on which the Q instance of the generated terms and the implementation disagree (raises if Coq fails).
+    Shards are independent coqc runs, four at a time."""
+    from concurrent.futures import ThreadPoolExecutor
+    jobs = [(lo, list(zip(cases[lo:lo + shard], answers[lo:lo + shard]))) for lo in range(0, len(cases), shard)]
     bad = []
-    for lo in range(0, len(cases), shard):
-        part = list(zip(cases[lo:lo + shard], answers[lo:lo + shard]))
-        v = PRELUDE + "Definition cases : list case := [\n%s].\n" % ";\n".join(case_term(c, a) for c, a in part)
-        v += 'Eval vm_compute in ("C09BAD", failing ok cases).\n'
-        rc, out = esrv.coq_run(v, timeout=900)
-        flat = " ".join(out.split()).replace("%string", "")
-        if rc != 0 or '("C09BAD",' not in flat:
-            raise RuntimeError("coq evaluation failed: " + out[-1500:])
-        body = flat.split('("C09BAD",', 1)[1]
-        body = body[:body.index(")")].strip()
-        if body != "[]":
-            idx = [int(t) for t in body.strip("[]").replace("%nat", "").split(";") if t.strip()]
-            bad += [lo + i for i in idx]
-    return bad
+    with ThreadPoolExecutor(max_workers=4) as ex:
+        for r in ex.map(_shard, jobs):
+            bad += r
+    return sorted(bad)
 
 
 def model_value(case, ans):
